@@ -306,3 +306,355 @@ func OrderVerbatim(p *core.Prog, r *core.Report) {
 		r.Und("ORDER-VERBATIM", key, p.Pos(fd.Pos()), "no return found in Order")
 	}
 }
+
+// FilterDelegate decides FILTER-DELEGATE on gts.Within and gts.Overlap: the
+// filter a constructor returns is the location predicate applied to the
+// feature's location and the two bounds as given, for all bounds: no special
+// answer for bounds in some relation to each other. (LocationOverlap takes its
+// bounds in either order, and a window of width zero still overlaps every
+// feature that strictly contains the site: Slice(seq, p, p) keeps those
+// features through this very filter.)
+func FilterDelegate(p *core.Prog, r *core.Report) {
+	r.Rule("FILTER-DELEGATE", "gts.Within(lower, upper) / gts.Overlap(lower, upper) consist of one return of a function literal whose body is `return LocationWithin / LocationOverlap(f.Loc, lower, upper)`: no early return gives a constant filter for some bounds", 2)
+	info := p.Info(core.PkgGts)
+	for _, x := range []struct{ ctor, pred string }{{"Within", "LocationWithin"}, {"Overlap", "LocationOverlap"}} {
+		fd := p.FuncDecl(core.PkgGts, x.ctor)
+		key := "gts." + x.ctor
+		if fd == nil || fd.Body == nil {
+			r.Und("FILTER-DELEGATE", key+"|anchor", "-", "anchor-unresolved")
+			continue
+		}
+		var params []types.Object
+		for _, f := range fd.Type.Params.List {
+			for _, n := range f.Names {
+				params = append(params, info.Defs[n])
+			}
+		}
+		rets := 0
+		var early *ast.ReturnStmt
+		ast.Inspect(fd.Body, func(n ast.Node) bool {
+			if _, ok := n.(*ast.FuncLit); ok {
+				return false
+			}
+			if rs, ok := n.(*ast.ReturnStmt); ok {
+				rets++
+				if len(rs.Results) == 1 {
+					if _, isLit := ast.Unparen(rs.Results[0]).(*ast.FuncLit); !isLit && early == nil {
+						early = rs
+					}
+				}
+			}
+			return true
+		})
+		if early != nil || rets != 1 || len(params) != 2 {
+			pos := fd.Pos()
+			if early != nil {
+				pos = early.Pos()
+			}
+			r.Bad("FILTER-DELEGATE", key, p.Pos(pos), fmt.Sprintf("%s does not always return the delegating filter: for some bounds it answers with another filter (an `upper <= lower` shortcut to FalseFilter makes Overlap(7, 3) select nothing although Overlap(3, 7) selects, and Overlap(p, p) miss the features that strictly contain p - Slice(seq, p, p) then drops them)", x.ctor))
+			continue
+		}
+		// the literal's body
+		var lit *ast.FuncLit
+		for _, rs := range core.Returns(fd.Body) {
+			if l, ok := ast.Unparen(rs.Results[0]).(*ast.FuncLit); ok {
+				lit = l
+			}
+		}
+		good := false
+		if lit != nil && len(lit.Body.List) == 1 && lit.Type.Params.NumFields() == 1 {
+			if rs, ok := lit.Body.List[0].(*ast.ReturnStmt); ok && len(rs.Results) == 1 {
+				if c, ok := ast.Unparen(rs.Results[0]).(*ast.CallExpr); ok && core.IsCallTo(info, c, core.PkgGts+"."+x.pred) && len(c.Args) == 3 {
+					fobj := info.Defs[lit.Type.Params.List[0].Names[0]]
+					sel, isSel := ast.Unparen(c.Args[0]).(*ast.SelectorExpr)
+					good = isSel && sel.Sel.Name == "Loc" && core.ObjOf(info, sel.X) == fobj && core.ObjOf(info, c.Args[1]) == params[0] && core.ObjOf(info, c.Args[2]) == params[1]
+				}
+			}
+		}
+		if good {
+			r.Ok("FILTER-DELEGATE", key, p.Pos(fd.Pos()), x.pred+"(f.Loc, lower, upper) for all bounds")
+		} else {
+			r.Bad("FILTER-DELEGATE", key, p.Pos(fd.Pos()), "the returned filter is not `return "+x.pred+"(f.Loc, lower, upper)`")
+		}
+	}
+}
+
+// StrandTally decides STRAND-TALLY on gts.checkStrand, the function that
+// gives a multi-part location its strand: evaluated for every combination of
+// how many parts are forward, reverse and on both strands (0, 1, 2 of each -
+// the code only compares tallies with small constants), the answer is forward
+// iff every part is forward, reverse iff every part is reverse, both otherwise.
+func StrandTally(p *core.Prog, r *core.Report) {
+	r.Rule("STRAND-TALLY", "gts.checkStrand, evaluated for all 26 non-empty combinations of 0..2 forward, reverse and both-strand parts, returns StrandForward iff all parts are forward, StrandReverse iff all are reverse, StrandBoth otherwise (the per-part switch and the final test are interpreted over the two tallies)", 1)
+	info := p.Info(core.PkgGts)
+	fd := p.FuncDecl(core.PkgGts, "checkStrand")
+	key := "gts.checkStrand"
+	if fd == nil || fd.Body == nil {
+		r.Und("STRAND-TALLY", key+"|anchor", "-", "anchor-unresolved")
+		return
+	}
+	strandConst := func(e ast.Expr) (string, bool) {
+		if o := core.ObjOf(info, e); o != nil {
+			if c, ok := o.(*types.Const); ok && core.NamedOf(c.Type()) == core.PkgGts+".Strand" {
+				return c.Name(), true
+			}
+		}
+		return "", false
+	}
+	var loop *ast.RangeStmt
+	for _, st := range fd.Body.List {
+		if rs, ok := st.(*ast.RangeStmt); ok {
+			loop = rs
+		}
+	}
+	if loop == nil || len(loop.Body.List) != 1 {
+		r.Und("STRAND-TALLY", key, p.Pos(fd.Pos()), "no single loop over the parts with a one-statement body")
+		return
+	}
+	sw, ok := loop.Body.List[0].(*ast.SwitchStmt)
+	if !ok || sw.Tag == nil {
+		r.Und("STRAND-TALLY", key, p.Pos(loop.Pos()), "the loop body is not a switch on the strand of the part")
+		return
+	}
+	if c, ok := ast.Unparen(sw.Tag).(*ast.CallExpr); !ok || !core.IsCallTo(info, c, core.PkgGts+".CheckStrand") {
+		r.Und("STRAND-TALLY", key, p.Pos(sw.Pos()), "the switch is not on CheckStrand(part)")
+		return
+	}
+	// increments per strand value
+	incs := map[string]map[types.Object]int{}
+	var dflt map[types.Object]int
+	hasDefault := false
+	for _, cc := range sw.Body.List {
+		cl := cc.(*ast.CaseClause)
+		m := map[types.Object]int{}
+		for _, st := range cl.Body {
+			switch x := st.(type) {
+			case *ast.IncDecStmt:
+				if o := core.ObjOf(info, x.X); o != nil && x.Tok == token.INC {
+					m[o]++
+					continue
+				}
+			case *ast.AssignStmt:
+				if x.Tok == token.ADD_ASSIGN && len(x.Lhs) == 1 {
+					if k, ok := core.ConstInt(info, x.Rhs[0]); ok {
+						m[core.ObjOf(info, x.Lhs[0])] += int(k)
+						continue
+					}
+				}
+			}
+			r.Und("STRAND-TALLY", key, p.Pos(st.Pos()), "a statement of the per-part switch is not an increment of a tally")
+			return
+		}
+		if cl.List == nil {
+			dflt, hasDefault = m, true
+			continue
+		}
+		for _, e := range cl.List {
+			name, ok := strandConst(e)
+			if !ok {
+				r.Und("STRAND-TALLY", key, p.Pos(e.Pos()), "a case of the per-part switch is not a Strand constant")
+				return
+			}
+			incs[name] = m
+		}
+	}
+	for _, name := range []string{"StrandForward", "StrandReverse", "StrandBoth"} {
+		if incs[name] == nil {
+			if hasDefault {
+				incs[name] = dflt
+			} else {
+				incs[name] = map[types.Object]int{}
+			}
+		}
+	}
+	// the statements behind the loop: a tagless switch or an if chain of returns
+	var tail []ast.Stmt
+	after := false
+	for _, st := range fd.Body.List {
+		if after {
+			tail = append(tail, st)
+		}
+		if st == ast.Stmt(loop) {
+			after = true
+		}
+	}
+	var evalInt func(e ast.Expr, env map[types.Object]int) (int, bool)
+	evalInt = func(e ast.Expr, env map[types.Object]int) (int, bool) {
+		e = ast.Unparen(e)
+		if k, ok := core.ConstInt(info, e); ok {
+			return int(k), true
+		}
+		if o := core.ObjOf(info, e); o != nil {
+			v, ok := env[o]
+			if !ok {
+				// a tally that was never incremented in this combination
+				if _, isVar := o.(*types.Var); isVar {
+					return 0, true
+				}
+			}
+			return v, ok
+		}
+		if be, ok := e.(*ast.BinaryExpr); ok {
+			a, ok1 := evalInt(be.X, env)
+			b, ok2 := evalInt(be.Y, env)
+			if ok1 && ok2 {
+				switch be.Op {
+				case token.ADD:
+					return a + b, true
+				case token.SUB:
+					return a - b, true
+				}
+			}
+		}
+		return 0, false
+	}
+	var evalBool func(e ast.Expr, env map[types.Object]int) (bool, bool)
+	evalBool = func(e ast.Expr, env map[types.Object]int) (bool, bool) {
+		e = ast.Unparen(e)
+		switch x := e.(type) {
+		case *ast.UnaryExpr:
+			if x.Op == token.NOT {
+				v, ok := evalBool(x.X, env)
+				return !v, ok
+			}
+		case *ast.BinaryExpr:
+			switch x.Op {
+			case token.LAND, token.LOR:
+				a, ok1 := evalBool(x.X, env)
+				b, ok2 := evalBool(x.Y, env)
+				if x.Op == token.LAND {
+					return a && b, ok1 && ok2
+				}
+				return a || b, ok1 && ok2
+			case token.EQL, token.NEQ, token.LSS, token.GTR, token.LEQ, token.GEQ:
+				a, ok1 := evalInt(x.X, env)
+				b, ok2 := evalInt(x.Y, env)
+				if !ok1 || !ok2 {
+					return false, false
+				}
+				switch x.Op {
+				case token.EQL:
+					return a == b, true
+				case token.NEQ:
+					return a != b, true
+				case token.LSS:
+					return a < b, true
+				case token.GTR:
+					return a > b, true
+				case token.LEQ:
+					return a <= b, true
+				default:
+					return a >= b, true
+				}
+			}
+		}
+		return false, false
+	}
+	var run func(stmts []ast.Stmt, env map[types.Object]int) (string, bool)
+	run = func(stmts []ast.Stmt, env map[types.Object]int) (string, bool) {
+		for _, st := range stmts {
+			switch x := st.(type) {
+			case *ast.ReturnStmt:
+				if len(x.Results) == 1 {
+					return strandConst(x.Results[0])
+				}
+				return "", false
+			case *ast.IfStmt:
+				if x.Init != nil {
+					return "", false
+				}
+				v, ok := evalBool(x.Cond, env)
+				if !ok {
+					return "", false
+				}
+				if v {
+					if res, ok := run(x.Body.List, env); ok || res != "" {
+						return res, ok
+					}
+					return "", false
+				}
+				if x.Else != nil {
+					switch el := x.Else.(type) {
+					case *ast.BlockStmt:
+						if res, ok := run(el.List, env); ok {
+							return res, true
+						}
+					case *ast.IfStmt:
+						if res, ok := run([]ast.Stmt{el}, env); ok {
+							return res, true
+						}
+					}
+				}
+			case *ast.SwitchStmt:
+				if x.Tag != nil || x.Init != nil {
+					return "", false
+				}
+				var def *ast.CaseClause
+				taken := false
+				for _, cc := range x.Body.List {
+					cl := cc.(*ast.CaseClause)
+					if cl.List == nil {
+						def = cl
+						continue
+					}
+					hit := false
+					for _, ce := range cl.List {
+						v, ok := evalBool(ce, env)
+						if !ok {
+							return "", false
+						}
+						hit = hit || v
+					}
+					if hit {
+						taken = true
+						if res, ok := run(cl.Body, env); ok {
+							return res, true
+						}
+						break
+					}
+				}
+				if !taken && def != nil {
+					if res, ok := run(def.Body, env); ok {
+						return res, true
+					}
+				}
+			default:
+				return "", false
+			}
+		}
+		return "", false
+	}
+	combos := 0
+	for nf := 0; nf <= 2; nf++ {
+		for nr := 0; nr <= 2; nr++ {
+			for nb := 0; nb <= 2; nb++ {
+				if nf+nr+nb == 0 {
+					continue
+				}
+				combos++
+				env := map[types.Object]int{}
+				for name, cnt := range map[string]int{"StrandForward": nf, "StrandReverse": nr, "StrandBoth": nb} {
+					for o, k := range incs[name] {
+						env[o] += k * cnt
+					}
+				}
+				got, ok := run(tail, env)
+				if !ok {
+					r.Und("STRAND-TALLY", key, p.Pos(fd.Pos()), "the test behind the loop cannot be interpreted (expected returns of Strand constants under comparisons of the tallies)")
+					return
+				}
+				want := "StrandBoth"
+				if nr == 0 && nb == 0 {
+					want = "StrandForward"
+				} else if nf == 0 && nb == 0 {
+					want = "StrandReverse"
+				}
+				if got != want {
+					r.Bad("STRAND-TALLY", key, p.Pos(fd.Pos()), fmt.Sprintf("with %d forward, %d reverse and %d both-strand parts checkStrand answers %s, not %s: a part that lies on both strands has to count against either single-strand verdict (order(join(1..3,complement(6..8)),21..23) reported as strictly forward: `gts select -s forward` accepts it, Not(Or(ForwardStrand, ReverseStrand)) loses it)", nf, nr, nb, got, want))
+					return
+				}
+			}
+		}
+	}
+	r.Ok("STRAND-TALLY", key, p.Pos(fd.Pos()), fmt.Sprintf("correct verdict on all %d combinations", combos))
+}
